@@ -184,8 +184,8 @@ def a4_componentwise_capacity(F, r):
 
 
 def q1_no_self_comparison(F, r):
-    from .common import self_comparison_rule
-    n = self_comparison_rule(F, r, (CHK,), "checker rule")
+    from .common import lints_rule
+    n = lints_rule(F, r, (CHK,), "checker rule")
     if n < 60:
         r.fail("comparison floor", f"only {n} comparison sites scanned in the checker")
 
